@@ -111,7 +111,11 @@ type c22Rec struct {
 	phantom bool
 }
 
-type c22Stats struct{ cancelled, heldOver int }
+type c22Stats struct {
+	cancelled, heldOver int
+	maxPending          int // largest number of records buffered at a watermark
+	splitWhileBig       int // watermarks with >= 32 buffered records that separate an insert (<= W) from a later retraction of the same row (> W)
+}
 
 // c22Reference buffers records, and at every watermark W (and at end of stream with W = +inf) emits the buffered records with
 // event time <= W, except insert/retract pairs of one row that are both <= W, and keeps the rest.
@@ -124,6 +128,22 @@ func c22Reference(msgs []mon.Msg, phantom, scanAnything bool) ([]string, c22Stat
 	var st c22Stats
 	var pending []c22Rec
 	flush := func(w int64, final bool) {
+		if len(pending) > st.maxPending {
+			st.maxPending = len(pending)
+		}
+		if !final && len(pending) >= 32 {
+			insertBelow := map[string]bool{}
+			for _, p := range pending {
+				below := p.t == 0 || p.t <= w
+				if !p.retr && below {
+					insertBelow[p.row] = true
+				}
+				if p.retr && !below && insertBelow[p.row] {
+					st.splitWhileBig++
+					break
+				}
+			}
+		}
 		crossed := make([]bool, len(pending))
 		var kept []c22Rec
 		for i := range pending {
@@ -253,6 +273,10 @@ func c22Prop(r *ev.Rec) func(c c22Case) ev.Outcome {
 		cl(dup, "row_inserted_more_than_once")
 		cl(retrEarlier, "retraction_time_below_an_insert_time_of_its_row")
 		cl(nwm == 0, "no_watermark")
+		cl(len(c.Msgs) >= 34, "long_script")
+		cl(st.maxPending >= 32, "32_or_more_records_pending_at_a_watermark")
+		cl(st.maxPending >= 64, "64_or_more_records_pending_at_a_watermark")
+		cl(st.splitWhileBig > 0, "watermark_splits_insert_retract_pair_with_32_or_more_pending")
 
 		// harness self-check: the reference algorithm without defects must satisfy the oracle (it is the proposed repair)
 		want, _ := c22Reference(c.Msgs, false, false)
@@ -333,9 +357,16 @@ func c22Parse(msgs []mon.Msg, formatted []string) []mon.Out {
 }
 
 func c22Gen(t *rapid.T) c22Case {
+	// long: a fraction of the scripts keeps tens of records (up to ~100) pending at once: long bursts without a watermark,
+	// a wider event-time window, rare watermarks that cut through the middle of the pending times
+	long := rapid.IntRange(0, 7).Draw(t, "long") == 0
 	ncols := rapid.IntRange(1, 2).Draw(t, "ncols")
 	pool := []gen.JV{gen.Int(0), gen.Int(1), gen.Str("a"), gen.Null()}
-	nrows := rapid.IntRange(1, 3).Draw(t, "nrows")
+	maxRows := 3
+	if long {
+		maxRows = 6
+	}
+	nrows := rapid.IntRange(1, maxRows).Draw(t, "nrows")
 	rows := make([][]gen.JV, nrows)
 	for i := range rows {
 		rows[i] = make([]gen.JV, ncols)
@@ -353,6 +384,9 @@ func c22Gen(t *rapid.T) c22Case {
 			lo = 1
 		}
 		hi := lo + 4
+		if long {
+			hi = lo + 9
+		}
 		return rapid.Int64Range(lo, hi).Draw(t, "et") * unit
 	}
 	type present struct {
@@ -363,8 +397,21 @@ func c22Gen(t *rapid.T) c22Case {
 	var c c22Case
 	wm := int64(0) // in units
 	n := rapid.IntRange(0, 12).Draw(t, "n")
+	wmEvery := 1
+	if long {
+		n = rapid.IntRange(34, 130).Draw(t, "nlong")
+		wmEvery = rapid.IntRange(4, 40).Draw(t, "wmevery") // a watermark action becomes one only every wmEvery-th time
+	}
+	wmTick := 0
 	for i := 0; i < n; i++ {
-		switch k := rapid.IntRange(0, 9).Draw(t, "action"); {
+		k := rapid.IntRange(0, 9).Draw(t, "action")
+		if k >= 3 && k < 5 {
+			wmTick++
+			if wmTick%wmEvery != 0 {
+				k = 9 // insert instead
+			}
+		}
+		switch {
 		case k < 3 && len(live) > 0: // retract a present row
 			idx := rapid.IntRange(0, len(live)-1).Draw(t, "which")
 			p := live[idx]
@@ -379,7 +426,11 @@ func c22Gen(t *rapid.T) c22Case {
 			}
 			c.Msgs = append(c.Msgs, mon.Msg{Kind: "rec", Vals: rows[p.row], Retr: true, T: et})
 		case k < 5: // watermark, non-decreasing
-			wm += rapid.Int64Range(0, 3).Draw(t, "wmstep")
+			if long {
+				wm += rapid.Int64Range(0, 6).Draw(t, "wmstep")
+			} else {
+				wm += rapid.Int64Range(0, 3).Draw(t, "wmstep")
+			}
 			if wm < 1 {
 				wm = 1
 			}
@@ -400,7 +451,8 @@ func c22Gen(t *rapid.T) c22Case {
 
 func TestC22(t *testing.T) {
 	r := ev.New("C22", "exploration",
-		"rapid changelogs of 0-12 messages over 1-3 distinct rows of 1-2 columns (ints, strings, NULL; rows may coincide, so duplicates are frequent): inserts, retractions of currently present rows only (every prefix valid), "+
+		"one case in eight is a long script (34-130 messages over 1-6 rows, event-time window 10 s, a watermark only every 4th-40th opportunity) so that 32-100 records are pending at once and watermarks cut between an insert and the later retraction of the same row (counted in the classes); the others: "+
+			"rapid changelogs of 0-12 messages over 1-3 distinct rows of 1-2 columns (ints, strings, NULL; rows may coincide, so duplicates are frequent): inserts, retractions of currently present rows only (every prefix valid), "+
 			"non-decreasing watermarks; event times out of order within a window of 5 s above the last watermark, sometimes late (at or below it), sometimes zero, a tenth of the streams entirely untimed; a retraction's time is usually >= its insertion's, sometimes below. "+
 			"Subject: stream.InternallyConsistentOutputStreamWrapper over the scripted source. Oracle (signed bags, written from the statement): watermarks forwarded unchanged; every emitted record is a not-yet-emitted input record received before the watermark being processed (same values, flag, event time); "+
 			"at each forwarded watermark W consolidated(emitted so far) = consolidated(input received so far with event time <= W), where a zero event time counts as below every watermark (the wrapper releases such records at the next watermark); at end of stream consolidated(emitted) = consolidated(input). "+
